@@ -125,13 +125,13 @@ Check (C07_closed_then_dialable :
   forall L m p c, In (EvClosed p c) (snd (step L m (Closed p c))) ->
   let m' := fst (step L m (Closed p c)) in
   (exists d, state_of m' p = Disconnected d) /\
-  forall f, ~ In (Ret RET_CONNECTED) (snd (do_dial_peer L m' p f))).
+  forall ts fl, ~ In (Ret RET_CONNECTED) (snd (do_dial_peer L m' p ts fl))).
 Check (C07_rollback_silent_refuted :
-  let L := mkLimits None None in
-  let es := [TrEstablished 5 0 true false; AcceptDone 0 true; TrEstablished 5 1 true false;
+  let L := mkLimits None None [TCP; WS] in
+  let es := [TrEstablished 5 0 TCP true false; AcceptDone 0 true; TrEstablished 5 1 WS true false;
              Closed 5 0; AcceptDone 1 false] in
   env_trace L init [] es /\
-  concat (snd (run L init es)) = [CallAccept 0; EvEstablished 5 0; CallAccept 1] /\
+  concat (snd (run L init es)) = [CallAccept 0 TCP; EvEstablished 5 0; CallAccept 1 WS] /\
   state_of (fst (run L init es)) 5 = Disconnected None).
 Check (C07_node_feeds_manager :
   forall L es nd l ann, NodeInv L nd l ann -> node_env_trace L nd l ann es ->
